@@ -35,3 +35,41 @@ chk("C09", "exploration", "runtime monitoring: round-trip of the real print comm
     "print(J) of generated accepted journals must be accepted by check, be a fixpoint of print, yield byte-identical balance reports under several flag sets, and contain exactly the model's non-accrued directives as read by the harness's own journal reader.",
     "The per-period split of accrued legs is C10's; balance comparisons use -a. Trusts the harness's journal reader (jr).",
     "DESIGN.md §4 C09")
+
+chk("C14", "exploration", "runtime monitoring: process-outcome monitor (exit status, panic/fatal traces, signals, watchdog, RSS, stdout/stderr discipline) over hostile inputs, include graphs and flags",
+    "Every journal-processing command is run as a subprocess on hostile scenarios (random and mutated bytes, semantic hostiles, include cycles / missing / unreadable files, hostile flag values) under an address-space limit and a watchdog; the monitor classifies each outcome and flags panics, runtime fatals, signals, hangs (reproduced 3x), memory blow-ups, silent failures, output on failing report commands, and success despite a planted bad file.",
+    "Samples an infinite input space; RLIMIT_AS (4 GB) stands in for memory exhaustion; a watchdog firing fewer than 3 times in a row is inconclusive.",
+    "DESIGN.md §4 C14")
+
+chk("C07", "exploration", "runtime monitoring: in-process structural monitor over every tree / error the real parser returns for mutational, grammar-based and random inputs (plus native fuzzing and a -race/checkptr re-run in the thorough tier)",
+    "The real parser is driven in-process (parser.New/Advance/ParseFile under recover and a watchdog) with deterministic mutational and random inputs; a reflective monitor checks every range, nesting, ordering, lexical class, gap content and re-concatenation of every returned tree, and position/renderability of every returned error.",
+    "Samples an infinite input space (evidence lists mutator kinds, error classes, directive kinds reached). A watchdog firing fewer than 3 times is inconclusive.",
+    "DESIGN.md §4 C07")
+chk("C08", "exploration", "runtime monitoring: format round-trip oracle (parse(format(T)) vs parse(T) vs the generator's abstract model, gap preservation, idempotence) in-process and through the CLI",
+    "Texts rendered from abstract journals in random layouts (and parseable mutants of them) are formatted by the real formatter; the result must parse to the same semantic tuples as the source and as the abstract model, keep all inter-directive text byte for byte, and be a fixpoint; the CLI path must leave unparseable files untouched and write exactly the library result otherwise.",
+    "Trusts the layout generator's abstract model and the tuple extraction; annotations on non-transactions are outside the judged zone.",
+    "DESIGN.md §4 C08")
+chk("C10", "exploration", "runtime monitoring: conservation / dating oracle over the real accrual expansion (library path and knut print)",
+    "Accrued transactions over a grid of amounts, intervals, window sizes and account-type pairs are expanded by the real code (model.ParseDirective / transaction.Create, and knut print); each generated transaction must balance, every non-accrual account must receive exactly what the original booked, the accrual account must net to zero, income/expense legs must land one per reference-calendar period end.",
+    "Own calendar (harness/cal) is the reference for periods; the size of the individual parts is not judged; windows with end < start are C14's.",
+    "DESIGN.md §4 C10")
+chk("C11", "exploration", "runtime monitoring: exhaustive enumeration of a bounded date square against an independent calendar, plus CLI column headers",
+    "date.NewPartition / StartDates / EndDates / Align / Contains are called for every ordered pair of dates in 2019-12-01..2021-03-31 x 6 intervals x 6 --last values (thorough: complete, 8.5M partitions; quick: boundary band + sub-sample) and compared with the harness's own calendar; balance column headers are compared for sampled windows.",
+    "Exhaustive only inside the stated square; `once` with start > end is judged only through Contains/Align-late.",
+    "DESIGN.md §4 C11")
+chk("C12", "exploration", "runtime monitoring: price histories driven through the real price graph code and the CLI, compared with an all-simple-paths big-integer reference",
+    "Declaration histories (trees, chains, cycles, direct+indirect pairs, redeclarations, two components) are inserted and normalised by the real code after each day, 16 times per day, and through `balance -v` 8 times; each price must be 1 for V, the latest direct declaration (or its reciprocal within 1e-8), or the per-step-truncated product along some simple path; unreachable commodities and zero prices must fail.",
+    "For derived prices every fold direction / reciprocal-truncation reading is accepted (the statement does not fix it).",
+    "DESIGN.md §4 C12")
+chk("C13", "exploration", "runtime monitoring: generated bank statements through the real importers, output judged by knut's own parser/check/print and by an independent reader against the statement's row model",
+    "For each of the 11 importers, well-formed statements with hostile free text are generated together with their row model; the importer's stdout must parse, be accepted once accounts are opened, re-print unchanged, and correspond row by row (date, currency, signed effect on the import account) to the statement, with no other directives than the assertions and prices the statement carries.",
+    "Statement generators follow the shape of the repository's golden inputs; descriptions and @performance targets are not judged.",
+    "DESIGN.md §4 C13 and Appendix A")
+chk("C15", "exploration", "runtime monitoring: token-level comparison of real `knut infer` output with `knut format` output, candidate-set oracle from the training model, repeated runs",
+    "For generated (training, target) pairs the infer output (stdout and --inplace) is compared line by line with the formatted target: only placeholder accounts may differ, each replacement must be a training account different from the booking's other account, no candidate means unchanged, the output must parse and be a format fixpoint, and 9 runs must be byte-identical.",
+    "Which candidate is chosen is not judged; descriptions with newlines are not generated.",
+    "DESIGN.md §4 C15")
+chk("C17", "exploration", "runtime monitoring: geometry and cell-by-cell comparison of the real text rendering with the CSV rendering through an independent big.Rat formatter",
+    "Text and CSV renderings of the same report (boundary-rich balances, multi-byte names, --digits -2..10, -k) are compared: equal line widths, aligned separators, 1:1 rows and cells, each numeric text cell equal to round-half-away-from-zero of the CSV amount (divided by 1000 with -k), zero blank, sign and thousands grouping; CSV cells are cross-checked against the reference ledger.",
+    "Spelling of a non-zero amount that rounds to zero is not judged; row order is fixed with -a.",
+    "DESIGN.md §4 C17")
